@@ -31,6 +31,7 @@ type Ctx struct {
 	Viol     []Violation
 	Known    []Violation
 	Notes    map[string]interface{}
+	ViolCount map[string]int
 }
 
 // Violation is a failure of a property's own predicate observed on the real implementation
@@ -56,7 +57,7 @@ func NewCtx(suite string, seed int64, tier string, outDir string) *Ctx {
 	}
 	return &Ctx{Suite: suite, Seed: seed, Tier: tier, Rng: rand.New(rand.NewSource(seed)), OutDir: outDir,
 		ops: bufio.NewWriterSize(of, 1<<20), impl: bufio.NewWriterSize(imf, 1<<20), opsF: of, implF: imf,
-		Viol: []Violation{}, Samples: []string{}, Classes: map[string]int{}, Distinct: map[string]bool{}, Notes: map[string]interface{}{}}
+		Viol: []Violation{}, Samples: []string{}, Classes: map[string]int{}, Distinct: map[string]bool{}, Notes: map[string]interface{}{}, ViolCount: map[string]int{}}
 }
 
 func (c *Ctx) Thorough() bool { return c.Tier == "thorough" }
@@ -80,7 +81,9 @@ func (c *Ctx) Class(name string)   { c.Classes[name]++ }
 func (c *Ctx) Nontrivial(k string) { c.Distinct[k] = true }
 
 func (c *Ctx) Violation(prop, sig, what, replay string) {
-	if len(c.Viol) < 50 {
+	k := prop + "/" + sig
+	c.ViolCount[k]++
+	if c.ViolCount[k] <= 3 && len(c.Viol) < 300 {
 		c.Viol = append(c.Viol, Violation{prop, sig, what, replay})
 	}
 }
@@ -98,7 +101,7 @@ func (c *Ctx) Close() {
 	st := map[string]interface{}{
 		"suite": c.Suite, "seed": c.Seed, "tier": c.Tier, "evaluations": c.N,
 		"distinct_nontrivial": len(c.Distinct), "classes": c.Classes, "samples": c.Samples,
-		"violations": c.Viol, "notes": c.Notes,
+		"violations": c.Viol, "violation_counts": c.ViolCount, "notes": c.Notes,
 	}
 	b, _ := json.MarshalIndent(st, "", " ")
 	if err := os.WriteFile(filepath.Join(c.OutDir, "stats.json"), b, 0o644); err != nil {
